@@ -20,7 +20,10 @@ import types
 from common import Coverage, Driver, rng, shrink_list, violation
 
 # --------------------------------------------------------------------------- events
-IP_ALPHA = ["S1.0", "S1025.0", "N", "R0", "F1", "C", "X", "T", "D", "RC", "O0"]
+IP_ALPHA = ["S1.0", "S1025.0", "N", "R0", "F1", "C", "X", "T", "D", "RC", "O0", "N+N@10"]
+# IP read segmentation: one TCP read = k complete frames + a prefix of the next (1 byte, 2 bytes, 10 bytes, all but
+# the last byte of the tag), the rest in a second read; replays / corrupted frames glued behind complete frames
+IP_SEG = ["S1.0", "N", "R0", "N@1", "N+N", "N+N@1", "N+N@2", "N+N@10", "N+N@-1", "N+R0@10", "N+C@2", "N+N+N@2"]
 BLE_ALPHA = ["S1.0", "S30.1", "N", "R0", "F1", "C", "X", "T", "D", "RC", "RD", "O0"]
 COAP_ALPHA = ["S1.0", "N", "R0", "F1", "C", "X", "T", "RC", "EN", "ER0", "EC"]
 ALPHA = {"ip": IP_ALPHA, "ble": BLE_ALPHA, "coap": COAP_ALPHA}
@@ -32,6 +35,10 @@ COAP_EVT = ["EN", "ER0", "EF1", "EC", "S1.0", "N"]     # event channel interleav
 
 
 def parse_ev(t):
+    if "+" in t or "@" in t:
+        # glued delivery (read segmentation): sub-events joined by "+", "@c" = the read is cut c bytes into the last frame
+        body, _, cut = t.partition("@")
+        return ("G", [parse_ev(x) for x in body.split("+")], int(cut) if cut else 0)
     if t in ("N", "C", "X", "T", "D", "RC", "RD", "EN", "EC"):
         return (t, 0, 0)
     if t.startswith("ER"):
@@ -44,6 +51,14 @@ def parse_ev(t):
     if t[0] in "ROF":
         return (t[0], int(t[1:]), 0)
     raise ValueError(t)
+
+
+def model_tokens(h):
+    """The model is frame-granular: a glued / cut delivery is the sequence of its frames."""
+    out = []
+    for t in h:
+        out += t.partition("@")[0].split("+") if ("+" in t or "@" in t) else [t]
+    return out
 
 
 DIRS = {"c2a": "c", "a2c": "a", "evt": "e"}
@@ -397,10 +412,12 @@ class IpRun:
         self.srv = 0
         self.cache = {}
 
-    def frame(self, epoch, i):
+    def frame(self, epoch, i, ahead=0):
+        """The accessory's frame with nonce i.  [ahead] = frames glued in front of it in the same event: it is
+        a response only if a request will still be pending when it is reached."""
         if (epoch, i) not in self.cache:
             body = f"{epoch}.{i}".encode()
-            head = b"HTTP/1.1 200 OK" if self.reqs.pending() else b"EVENT/1.0 200 OK"
+            head = b"HTTP/1.1 200 OK" if self.reqs.pending() - ahead > 0 else b"EVENT/1.0 200 OK"
             pt = head + b"\r\nContent-Length: %d\r\n\r\n" % len(body) + body
             ln = struct.pack("<H", len(pt))
             ct = self.acc_keys[epoch].encrypt(nonce_bytes(i), pt, ln)
@@ -408,35 +425,56 @@ class IpRun:
             self.cache[(epoch, i)] = ln + ct
         return self.cache[(epoch, i)]
 
-    def deliver_at(self, i):
-        self.srv = max(self.srv, i + 1)
-        self.tr.deliver(self.frame(self.epoch, i))
+    def wire_frame(self, ev, ahead=0):
+        """Bytes the accessory / attacker puts on the TCP stream for one delivery event (None: nothing)."""
+        k, a, b = ev
+        if k in ("N", "R", "F"):
+            i = self.srv if k == "N" else (a if k == "R" else self.srv + a)
+            self.srv = max(self.srv, i + 1)
+            return self.frame(self.epoch, i, ahead)
+        if k == "C":
+            f = bytearray(self.frame(self.epoch, self.srv, ahead))
+            self.srv += 1
+            f[-1] ^= 1
+            return bytes(f)
+        if k == "O":
+            if self.epoch == 0:
+                return None
+            old = self.old_cache.get(a)
+            if old is None:
+                pt = b"EVENT/1.0 200 OK\r\nContent-Length: 1\r\n\r\nx"
+                ln = struct.pack("<H", len(pt))
+                ct = self.acc_keys[self.epoch - 1].encrypt(nonce_bytes(a), pt, ln)
+                TRACE.frames[ct] = (self.epoch - 1, "a", a)
+                old = self.old_cache[a] = ln + ct
+            return old
+        raise ValueError(f"not a delivery event: {k}")
 
     def step(self, ev):
         k, a, b = ev
         if k == "S":
             self.reqs.start(self.epoch, self.proto.send_bytes(b"x" * a))
-        elif k == "N":
-            self.deliver_at(self.srv)
-        elif k == "R":
-            self.deliver_at(a)
-        elif k == "F":
-            self.deliver_at(self.srv + a)
-        elif k == "O":
-            if self.epoch > 0:
-                old = self.old_cache.get(a)
-                if old is None:
-                    pt = b"EVENT/1.0 200 OK\r\nContent-Length: 1\r\n\r\nx"
-                    ln = struct.pack("<H", len(pt))
-                    ct = self.acc_keys[self.epoch - 1].encrypt(nonce_bytes(a), pt, ln)
-                    TRACE.frames[ct] = (self.epoch - 1, "a", a)
-                    old = ln + ct
-                self.tr.deliver(old)
-        elif k == "C":
-            f = bytearray(self.frame(self.epoch, self.srv))
-            self.srv += 1
-            f[-1] ^= 1
-            self.tr.deliver(bytes(f))
+        elif k in ("N", "R", "F", "C", "O"):
+            f = self.wire_frame(ev)
+            if f is not None:
+                self.tr.deliver(f)
+        elif k == "G":
+            # read segmentation: the frames of the sub-events are glued into ONE TCP read that ends [cut]
+            # bytes into the last frame (cut < 0: counted from its end, i.e. inside the tag); the rest of the
+            # last frame arrives as a second read.  cut = 0: all frames complete in one read.
+            frames = []
+            for sub in a:
+                f = self.wire_frame(sub, ahead=len(frames))
+                if f is not None:
+                    frames.append(f)
+            if frames:
+                last = frames[-1]
+                cut = b if b >= 0 else len(last) + b
+                cut = max(1, min(len(last) - 1, cut)) if b != 0 else len(last)
+                self.tr.deliver(b"".join(frames[:-1]) + last[:cut])
+                settle(self.loop)
+                if cut < len(last):
+                    self.tr.deliver(last[cut:])
         elif k == "X":
             t = self.reqs.inflight()
             if t is not None:
@@ -453,7 +491,6 @@ class IpRun:
             self.new_session()
         settle(self.loop)
         self.reqs.collect()
-
 
 
 # --------------------------------------------------------------------------- BLE
@@ -655,6 +692,10 @@ class BleRun:
     def step(self, ev):
         from bleak.exc import BleakError
         k, a, b = ev
+        if k == "G":
+            for sub in a:
+                self.step(sub)
+            return
         if k == "S":
             self.conts.append(b)
             self.reqs.start(self.epoch, self.pairing._async_request(self.opcode(), self.char, b"y" * a))
@@ -782,6 +823,10 @@ class CoapRun:
     def step(self, ev):
         from aiocoap.error import NetworkError
         k, a, b = ev
+        if k == "G":
+            for sub in a:
+                self.step(sub)
+            return
         if k == "S":
             self.reqs.start(self.epoch, self.ctx.post_bytes(b"z" * max(a, 1)))
         elif k in ("N", "R", "F", "C", "O"):
@@ -962,6 +1007,9 @@ def random_histories(transport, r, count, maxlen):
             if r.random() < p_ok:
                 if transport == "ip":
                     h += [f"S{r.choice([1, 1, 1024, 1025, 2049, 0])}.0", "N"]
+                    if r.random() < 0.3:
+                        parts = [r.choice(["N", "N", "N", "R0", "R1", "F1", "C", "O0"]) for _ in range(r.choice([1, 2, 2, 3]))]
+                        h.append("+".join(parts) + r.choice(["", "@1", "@2", "@3", "@10", "@17", "@-1", "@-16", "@-17"]))
                 elif transport == "ble":
                     c = r.choice([0, 1])
                     h += [f"S{r.choice([0, 1, 20, 21, 45, 46, 70])}.{c}", "N"] + (["N"] if c else [])
@@ -1000,6 +1048,9 @@ DIRECTED = {
         ["S1025.0", "N", "R0", "S1.0", "RC", "S1.0", "O0"],
         ["S2049.0", "S1.0", "N", "N", "N", "T", "S1.0"],
         ["S1.0", "S1.0", "X", "S1.0", "N"],
+        # read segmentation: frame 0 + 10 bytes of a replayed frame 0 in one read, the rest in the next
+        ["S1.0", "N+R0@10"], ["N+R0@10", "N"], ["S1.0", "S1.0", "N+N@10", "N"], ["N+N+N@-1", "R1", "N@1", "N+C@2"],
+        ["S1.0", "N@2", "RC", "S1.0", "N+O0@10", "N"],
     ],
     "ble": [
         ["S30.1", "S1.0", "N", "N", "C", "S1.0", "RC", "S0.0", "X"],
@@ -1077,10 +1128,12 @@ def run(ctx):
         hists += [list(t) for t in itertools.product(CORE[transport], repeat=core_depth)]
         if transport == "coap":
             hists += [list(t) for t in itertools.product(COAP_EVT, repeat=core_depth)]
+        if transport == "ip":
+            hists += list(exhaustive(IP_SEG, full_depth))
         n_core = len(hists) - n_full
         hists += DIRECTED[transport]
         hists += random_histories(transport, rng(seed, "c06" + transport), n_rand, 60)
-        model = drv.batch([transport + " " + " ".join(h) for h in hists])
+        model = drv.batch([transport + " " + " ".join(model_tokens(h)) for h in hists])
         impl = impl_batch(transport, hists, workers)
         counts[transport] = dict(exhaustive_full_alphabet=n_full, exhaustive_core_alphabet=n_core,
                                  directed=len(DIRECTED[transport]), random=n_rand)
@@ -1120,14 +1173,16 @@ def run(ctx):
             if len(small) < len(h):
                 v["payload"]["history"] = small
                 v["payload"]["impl"] = run_impl(tr, small)[0]
-                v["payload"]["model"] = drv.batch([tr + " " + " ".join(small)])[0]
+                v["payload"]["model"] = drv.batch([tr + " " + " ".join(model_tokens(small))])[0]
                 v["what"] = v["what"].split("; history ")[0] + "; history " + " ".join(small)
         out.append(v)
     cov.extra["exhaustive"] = True
     cov.extra["exhaustive_part"] = (
-        "per transport: every history of length <= %d over its 11/12-symbol alphabet %s; every history of length %d over the "
-        "7-symbol core %s; CoAP additionally every history of length %d over the event alphabet %s"
-        % (full_depth, ALPHA, core_depth, CORE, core_depth, COAP_EVT))
+        "per transport: every history of length <= %d over its 12-symbol alphabet %s; every history of length %d over the "
+        "7-symbol core %s; CoAP additionally every history of length %d over the event alphabet %s; IP additionally every "
+        "history of length <= %d over the read-segmentation alphabet %s (a+b@c = frames glued into one TCP read that ends c "
+        "bytes into the last frame, remainder in a second read)"
+        % (full_depth, ALPHA, core_depth, CORE, core_depth, COAP_EVT, full_depth, IP_SEG))
     cov.extra["case_counts"] = counts
     cov.extra["disagreements_checked"] = mismatches
     cov.extra["compared"] = "seal log, wire log, open attempts (nonce, success), accepted frame identities, per-request outcome class"
